@@ -620,8 +620,6 @@ class Inliner:
                                 call, mode, h = node, "deep", hh
                                 self._deep = (par, fld, idx)
                                 break
-                            if not _pure_callee(node.func):
-                                break
             if h is not None and h is not func and mode == "iter" and _is_generator(h):
                 # `for x in self.__items():` over a generator helper: the loop body runs where the helper yields
                 relink(h.node, getattr(h.node, "_parent", None))
